@@ -474,9 +474,8 @@ package tlog
 //@   props C01 C13 C09
 //@ func ParseRecord
 //@   allocates
-//@   trusted "text codec; here: a relation between the message and its parts"
-//@   ensures err == nil ==> PARSEDREC(string(msg), id, string(text), string(rest))
-//@   props C01 C13
+//@   ensures [C09] parsed: err == nil ==> PARSEDREC(string(msg), id, string(text), string(rest))
+//@   props C01 C13 C09
 
 
 //@ # ====================== stored-hash layout (C09) ======================
@@ -664,4 +663,52 @@ package tlog
 //@     invariant 0 <= i && i <= m && m == TZ(n + 1) && len(old) == m && len(hashes) == 1 + i && hashes[0] == old(h)
 //@     decreases m - i
 //@   uses TZ_nonneg TZ_upper TZ_bound
+//@   props C09
+
+//@ # ====================== record text (C09: records survive their text encoding) ======================
+//@ func isValidRecordText
+//@   # result == RECTEXT(string(text)), the accepting direction given conjunct by conjunct
+//@   ensures [C09] rejects_only_invalid: !result ==> !RECTEXT(string(text))
+//@   ensures [C09] accepted_is_utf8: result ==> UTF8OK(string(text))
+//@   ensures [C09] accepted_has_no_control: result ==> (forall k int {string(text)[k]} :: 0 <= k && k < len(text) ==> string(text)[k] >= 32 || string(text)[k] == 10)
+//@   ensures [C09] accepted_ends_in_newline: result ==> len(text) > 0 && string(text)[len(text)-1] == 10
+//@   ensures [C09] accepted_has_no_blank_line: result ==> (forall k int {string(text)[k]} :: 0 <= k && k + 1 < len(text) ==> !(string(text)[k] == 10 && string(text)[k+1] == 10))
+//@   loop 0:
+//@     invariant 0 <= i && i <= len(text)
+//@     invariant UTF8OK(string(text)) == UTF8OK(string(text[i:]))
+//@     invariant forall k int {text[k]} :: 0 <= k && k < i ==> text[k] >= 32 || text[k] == 10
+//@     invariant forall k int {text[k]} :: 0 <= k && k + 1 < i ==> !(text[k] == 10 && text[k+1] == 10)
+//@     invariant (last == 10) == (i > 0 && text[i-1] == 10)
+//@     # (bytes of the text as a string at and before the current position: the terms the definition talks about)
+//@     invariant (i < len(text) ==> string(text)[i] == text[i]) && (i > 0 ==> string(text)[i-1] == text[i-1])
+//@     decreases len(text) - i
+//@   uses utf8_decode
+//@   props C09
+
+//@ func FormatRecord
+//@   allocates
+//@   ensures [C09] formats_valid_text_only: (err == nil) == RECTEXT(string(text))
+//@   ensures [C09] format: err == nil ==> string(msg) == DEC(id) + "\n" + string(text) + "\n"
+//@   props C09
+//@ # the id line ends at the first newline: decimal text has none
+//@ lemma rec_first_newline(d string, x string)
+//@   requires len(d) + len(x) < 4611686018427387904 && (forall k int {d[k]} :: 0 <= k && k < len(d) ==> d[k] != 10)
+//@   ensures strings.IndexByte(d + "\n" + x, 10) == len(d)
+//@   hint (d + "\n" + x)[len(d)]
+//@   hint (d + "\n" + x)[strings.IndexByte(d + "\n" + x, 10)]
+//@   hint d[strings.IndexByte(d + "\n" + x, 10)]
+//@   props C09
+//@ # the text ends at the first blank line: record text has no two newlines in a row and ends in one
+//@ lemma rec_first_blank(t string)
+//@   requires len(t) < 4611686018427387904 && len(t) > 0 && t[len(t)-1] == 10 && (forall k int {t[k]} :: 0 <= k && k + 1 < len(t) ==> !(t[k] == 10 && t[k+1] == 10))
+//@   ensures strings.Index(t + "\n", "\n\n") == len(t) - 1
+//@   hint occurs(t + "\n", "\n\n", len(t) - 1)
+//@   hint occurs(t + "\n", "\n\n", strings.Index(t + "\n", "\n\n"))
+//@   props C09
+//@ # records survive their text encoding: what FormatRecord produces for (id, t) is decoded by ParseRecord as exactly
+//@ # (id, t) with nothing left over
+//@ lemma record_roundtrip(id int, t string)
+//@   requires 0 - 9223372036854775808 <= id && id <= 9223372036854775807 && len(t) < 4611686018427387000 && RECTEXT(t)
+//@   ensures PARSEDREC(DEC(id) + "\n" + t + "\n", id, t, "")
+//@   uses dec_parse rec_first_newline rec_first_blank cat_prefix cat_assoc
 //@   props C09
